@@ -918,7 +918,24 @@ func EvalSymlinks(p string) (string, error) {
 	if f.lookup(p) == nil {
 		return "", pathErr("lstat", p, syscall.ENOENT)
 	}
-	return p, nil
+	// replace every symbolic link on the way by its target (targets are absolute in this file system)
+	abs := strings.HasPrefix(p, "/")
+	cur := "/"
+	parts := strings.Split(strings.Trim(norm(p), "/"), "/")
+	for depth := 0; len(parts) > 0 && depth < 64; depth++ {
+		next := path.Join(cur, parts[0])
+		parts = parts[1:]
+		if n := f.lookupNoFollow(next); n != nil && n.link != "" {
+			cur = n.link
+			abs = true
+			continue
+		}
+		cur = next
+	}
+	if !abs {
+		return strings.TrimPrefix(cur, "/"), nil
+	}
+	return cur, nil
 }
 
 func Glob(pattern string) ([]string, error) {
